@@ -198,14 +198,18 @@ def run(ctx):
     dm = m.get_function('loki/transformations/build_system/dependency.py', 'DependencyTransformation.derive_module_name')
     n5 = 0
     for call, guards in X.nodes_with_guards(dm.node, lambda n: isinstance(n, ast.Call) and isinstance(n.func, ast.Attribute)
-                                            and n.func.attr == 'rindex'):
+                                            and n.func.attr in ('rindex', 'index', 'find', 'rfind')):
         n5 += 1
         suf = ast.unparse(call.args[0]) if call.args else '?'
-        inst = f'derive_module_name:rindex({suf})'
-        if any(f'.endswith({suf})' in g and not g.startswith('not (') for g in guards):
+        inst = f'derive_module_name:{call.func.attr}({suf})'
+        if call.func.attr in ('index', 'find'):
+            ctx.violation('R5', f'derive_module_name:cut-at-first-occurrence', f'{dm.module.relpath}:{call.lineno}',
+                          f'the suffix {suf} is located with `.{call.func.attr}(`, i.e. at its *first* occurrence, although only a trailing suffix '
+                          f'is to be removed: cloud_model_mod is cut to cloud and receives the same derived name as cloud_mod')
+        elif any(f'.endswith({suf})' in g and not g.startswith('not (') for g in guards):
             ctx.judge('R5', inst, facts={'guards': guards})
         else:
-            ctx.violation('R5', f'{inst}:unguarded', f'{dm.module.relpath}:{call.lineno}',
+            ctx.violation('R5', f'derive_module_name:rindex({suf}):unguarded', f'{dm.module.relpath}:{call.lineno}',
                           f'the name is cut at the last occurrence of {suf} under guards {guards}, none of which tests that the name *ends* '
                           f'with it: kernel_mod_dup is reduced to kernel and collides with the name derived for kernel_mod')
     ctx.floor('R5', 'suffix cuts in derive_module_name', n5, 2)
@@ -213,6 +217,8 @@ def run(ctx):
 
 FP = 'loki/transformations/transpile/fortran_python.py'
 MUTANTS = [
+    Mutant('suffix-cut-at-first-occurrence', 'loki/transformations/build_system/dependency.py', "            idx = modname.lower().rindex(self.module_suffix.lower())",
+           "            idx = modname.lower().index(self.module_suffix.lower())", expect=('R5', 'cut-at-first-occurrence')),
     Mutant('seeds-from-snapshot', 'loki/batch/scheduler.py', "            if matched_keys := self.config.match_item_keys(old_name, self.seeds):",
            "            if matched_keys := self.config.match_item_keys(old_name, seeds):", expect=('R4', 'stale-snapshot'),
            also=[('loki/batch/scheduler.py', "        for old_name, new_name in renamed_keys.items():\n            if matched_keys := self.config.match_item_keys(old_name, self.config.routines):",
